@@ -155,6 +155,37 @@ def build_models(ytrain, yval):
     return mk(ytrain), mk(yval)
 
 
+def run_b(mi, p, at, rt, prune, pos):
+    """one optim_flat run with a scripted optimizer; returns the observation dict judged by oracle_b"""
+    import jax, jax.numpy as jnp, numpy as np
+    from liesel.goose.optim import Stopper, optim_flat
+    ytr = [0.0, 0.5, -0.5, 1.0]
+    yva = [0.25, -0.25, 0.0]
+    mtr, mva = build_models(ytr, yva)
+    st = Stopper(max_iter=mi, patience=p, atol=float(at), rtol=float(rt))
+    script = jnp.asarray([float(x) for x in pos], dtype=jnp.float32)
+    res = optim_flat(mtr, ["x"], optimizer=scripted_optimizer(script), stopper=st, model_validation=mva,
+                     prune_history=prune, progress_bar=False)
+    lv = np.asarray(res.history["loss_validation"], dtype=np.float64)
+    lt = np.asarray(res.history["loss_train"], dtype=np.float64)
+    ph = np.asarray(res.history["position"]["x"], dtype=np.float64)
+    it, ib = int(res.iteration), int(res.iteration_best)
+    # consistency of the returned model state with the returned position (direct assignment oracle)
+    xs = float(res.position["x"])
+    m2, _ = build_models(ytr, yva)
+    m2.vars["x"].value = jnp.float32(xs)
+    m2.update()
+    lp_direct = float(m2.log_prob)
+    lp_state = float(res.model_state["_model_log_prob"].value)
+    x_state = float(res.model_state["x_value"].value) if "x_value" in res.model_state else float(res.model_state[mtr.vars["x"].value_node.name].value)
+    return {"part": "B", "max_iter": mi, "patience": p, "atol": at, "rtol": rt, "prune": prune,
+            "script": [str(x) for x in pos], "loss_val": [None if math.isnan(v) else Fraction(v) for v in lv],
+            "loss_train_nan": [bool(math.isnan(v)) for v in lt],
+            "pos_hist": [None if math.isnan(v) else Fraction(v) for v in ph],
+            "iteration": it, "ibest": ib, "position": Fraction(xs),
+            "lp_direct": lp_direct, "lp_state": lp_state, "x_state": x_state, "stopper_patience_after": int(st.patience)}
+
+
 def part_b(ctx, rnd):
     import jax, jax.numpy as jnp, numpy as np
     from liesel.goose.optim import Stopper, optim_flat
@@ -180,31 +211,7 @@ def part_b(ctx, rnd):
             elif mode == "zigzag":
                 cur = cur + Fraction(rnd.choice([-1, 1, 0]), 2)
             pos.append(cur)
-        ytr = [0.0, 0.5, -0.5, 1.0]
-        yva = [0.25, -0.25, 0.0]
-        mtr, mva = build_models(ytr, yva)
-        st = Stopper(max_iter=mi, patience=p, atol=float(at), rtol=float(rt))
-        script = jnp.asarray([float(x) for x in pos], dtype=jnp.float32)
-        res = optim_flat(mtr, ["x"], optimizer=scripted_optimizer(script), stopper=st, model_validation=mva,
-                         prune_history=prune, progress_bar=False)
-        lv = np.asarray(res.history["loss_validation"], dtype=np.float64)
-        lt = np.asarray(res.history["loss_train"], dtype=np.float64)
-        ph = np.asarray(res.history["position"]["x"], dtype=np.float64)
-        it, ib = int(res.iteration), int(res.iteration_best)
-        # consistency of the returned model state with the returned position (direct assignment oracle)
-        xs = float(res.position["x"])
-        m2, _ = build_models(ytr, yva)
-        m2.vars["x"].value = jnp.float32(xs)
-        m2.update()
-        lp_direct = float(m2.log_prob)
-        lp_state = float(res.model_state["_model_log_prob"].value)
-        x_state = float(res.model_state["x_value"].value) if "x_value" in res.model_state else float(res.model_state[mtr.vars["x"].value_node.name].value)
-        cases.append({"part": "B", "max_iter": mi, "patience": p, "atol": at, "rtol": rt, "prune": prune,
-                      "script": [str(x) for x in pos], "loss_val": [None if math.isnan(v) else Fraction(v) for v in lv],
-                      "loss_train_nan": [bool(math.isnan(v)) for v in lt],
-                      "pos_hist": [None if math.isnan(v) else Fraction(v) for v in ph],
-                      "iteration": it, "ibest": ib, "position": Fraction(xs),
-                      "lp_direct": lp_direct, "lp_state": lp_state, "x_state": x_state, "stopper_patience_after": int(st.patience)})
+        cases.append(run_b(mi, p, at, rt, prune, pos))
     ctx.count(len(cases), len({(c["max_iter"], c["patience"], tuple(c["script"])) for c in cases}))
     ctx.hist("B.optim_flat_runs", len(cases))
     ctx.hist("B.early_stopped", sum(1 for c in cases if c["iteration"] < c["max_iter"] - 1))
@@ -281,6 +288,44 @@ def _js(c):
 
 
 # ---------------------------------------------------------------------------------------------
+def run_c(n, bs, iters, seed):
+    """one mini-batch optim_flat run with the batch generator wrapped to log (key, batches) per iteration"""
+    import jax, jax.numpy as jnp, numpy as np
+    import liesel.goose.optim as opt
+    import liesel.model as lsl
+    import tensorflow_probability.substrates.jax.distributions as tfd
+    log = []
+    orig = opt._generate_batch_indices
+
+    def spy(key, n, batch_size):
+        out = orig(key, n, batch_size)
+        jax.debug.callback(lambda k, o: log.append((np.asarray(jax.random.key_data(k) if hasattr(k, "dtype") and str(k.dtype).startswith("key") else k).tolist(), np.asarray(o).tolist())), key, out)
+        return out
+
+    xs = jnp.linspace(-1.0, 1.0, n)
+    b = lsl.param(jnp.float32(0.0), name="b")
+    xv = lsl.obs(xs, name="xobs")
+    mu = lsl.Var(lsl.Calc(lambda x, b: x * b, xv, b), name="mu")
+    y = lsl.obs(2.0 * xs + 0.1, lsl.Dist(tfd.Normal, loc=mu, scale=jnp.float32(1.0)), name="y")
+    model = lsl.GraphBuilder().add(y).build_model()
+    with mock.patch.object(opt, "_generate_batch_indices", spy):
+        res = opt.optim_flat(model, ["b"], stopper=opt.Stopper(max_iter=iters + 1, patience=iters + 1),
+                             batch_size=bs, batch_seed=seed, progress_bar=False)
+    jax.effects_barrier()
+    # model keys along the path  root ++ 0^j ++ [1]
+    root = jax.random.PRNGKey(seed)
+    want, k = [], root
+    for j in range(len(log)):
+        nk, sub = jax.random.split(k)
+        want.append(np.asarray(sub).tolist())
+        k = nk
+    stale = [np.asarray(jax.random.split(root)[1]).tolist()] * len(log)
+    used = sorted({i for (_, bt) in log for row in bt for i in row})
+    return ({"part": "C", "n": n, "batch_size": bs, "seed": seed, "iterations": len(log),
+                  "keys": [k for k, _ in log], "batches": [b_ for _, b_ in log], "want_keys": want, "stale_keys": stale,
+                  "observations_used": used})
+
+
 def part_c(ctx, rnd):
     import jax, jax.numpy as jnp, numpy as np
     import liesel.goose.optim as opt
@@ -290,37 +335,7 @@ def part_c(ctx, rnd):
     cases = []
     cfgs = [(7, 3, 4), (10, 4, 5)] if ctx.quick else [(7, 3, 6), (10, 4, 6), (11, 5, 5), (9, 2, 5), (13, 6, 4)]
     for (n, bs, iters) in cfgs:
-        seed = rnd.randint(1, 999)
-        log = []
-        orig = opt._generate_batch_indices
-
-        def spy(key, n, batch_size):
-            out = orig(key, n, batch_size)
-            jax.debug.callback(lambda k, o: log.append((np.asarray(jax.random.key_data(k) if hasattr(k, "dtype") and str(k.dtype).startswith("key") else k).tolist(), np.asarray(o).tolist())), key, out)
-            return out
-
-        xs = jnp.linspace(-1.0, 1.0, n)
-        b = lsl.param(jnp.float32(0.0), name="b")
-        xv = lsl.obs(xs, name="xobs")
-        mu = lsl.Var(lsl.Calc(lambda x, b: x * b, xv, b), name="mu")
-        y = lsl.obs(2.0 * xs + 0.1, lsl.Dist(tfd.Normal, loc=mu, scale=jnp.float32(1.0)), name="y")
-        model = lsl.GraphBuilder().add(y).build_model()
-        with mock.patch.object(opt, "_generate_batch_indices", spy):
-            res = opt.optim_flat(model, ["b"], stopper=opt.Stopper(max_iter=iters + 1, patience=iters + 1),
-                                 batch_size=bs, batch_seed=seed, progress_bar=False)
-        jax.effects_barrier()
-        # model keys along the path  root ++ 0^j ++ [1]
-        root = jax.random.PRNGKey(seed)
-        want, k = [], root
-        for j in range(len(log)):
-            nk, sub = jax.random.split(k)
-            want.append(np.asarray(sub).tolist())
-            k = nk
-        stale = [np.asarray(jax.random.split(root)[1]).tolist()] * len(log)
-        used = sorted({i for (_, bt) in log for row in bt for i in row})
-        cases.append({"part": "C", "n": n, "batch_size": bs, "seed": seed, "iterations": len(log),
-                      "keys": [k for k, _ in log], "batches": [b_ for _, b_ in log], "want_keys": want, "stale_keys": stale,
-                      "observations_used": used})
+        cases.append(run_c(n, bs, iters, rnd.randint(1, 999)))
     ctx.count(len(cases), len(cases))
     ctx.hist("C.minibatch_runs", len(cases))
     ctx.hist("C.iterations_logged", sum(c["iterations"] for c in cases))
@@ -417,5 +432,43 @@ def run(ctx) -> int:
 
 
 def replay(rp) -> int:
-    print(rp)
+    """re-run the recorded failing input on the real code and judge it with the direct oracle"""
+    import jax, jax.numpy as jnp, numpy as np
+    from liesel.goose.optim import Stopper
+    logging.getLogger("liesel").setLevel(logging.ERROR)
+    r = rp.get("replay", rp)
+    verdict = None
+    if "history" in r:                      # part A: one Stopper call
+        h = [int(x) for x in r["history"]]
+        p, i = int(r["patience"]), int(r["i"])
+        mi = int(r.get("max_iter", len(h)))
+        at, rt = Fraction(r.get("atol", 0)), Fraction(r.get("rtol", 0))
+        st = Stopper(max_iter=mi, patience=p, atol=float(at), rtol=float(rt))
+        H = jnp.asarray(h, dtype=jnp.float32)
+        sn = bool(st.stop_now(jnp.int32(i), H))
+        wb = int(st.which_best_in_recent_history(jnp.int32(i), H))
+        hh = [Fraction(x) for x in h]
+        want = py_rule(mi, p, at, rt, i, hh)
+        if sn != want:
+            verdict = {"why": f"Stopper.stop_now returns {sn} where the documented rule says {want}"}
+        elif i >= p - 1:
+            win = hh[i - p + 1: i + 1]
+            wantb = i - p + 1 + win.index(min(win))
+            if wb != wantb:
+                verdict = {"why": f"which_best_in_recent_history returns {wb}, the first minimiser of the window is {wantb}"}
+    elif "case" in r and r["case"].get("part") == "B":
+        c = r["case"]
+        obs = run_b(int(c["max_iter"]), int(c["patience"]), Fraction(c["atol"]), Fraction(c["rtol"]), bool(c["prune"]),
+                    [Fraction(x) for x in c["script"]])
+        verdict = oracle_b(obs)
+    elif "n" in r and "batch_size" in r:
+        obs = run_c(int(r["n"]), int(r["batch_size"]), int(r.get("iterations", 5)), int(r["seed"]))
+        verdict = oracle_c(obs)
+    else:
+        print("replay file names no concrete input (broken lemma only):", r.get("broken"))
+        return 0
+    if verdict:
+        print("REPLAY FAILS:", verdict["why"])
+        return 1
+    print("replay passes on the current tree")
     return 0
